@@ -56,7 +56,7 @@ class AdamsBashforthSolver(SolverBase):
             nonlocal state_prev, init_state_prev
 
             # calculate number of steps that lead to an end time closest to t_end
-            steps = max(1, round((t_end - t_start) / self.info["dt"]))
+            steps = max(1, round((t_end - t_start) / dt))
 
             if init_state_prev:
                 # initialize the state_prev with an estimate of the previous step
